@@ -6,7 +6,7 @@ META = dict(
                 'symbolic-trip loop of normalize_axis, shape_transpose (None/axes), reverse, scatter, gather, product, '
                 'count_negative_reshape, shape_reshape, shape_expand_dims, shape_squeeze, shape_atleast_nd (nd=1,2,3), shape_flatten, '
                 'swapaxes_to_transpose, moveaxis_to_transpose (scalar axes; axis lists of the fixed length 2 given as nmtools_array<int,2>: the rank loops '
-                'under loop contracts, the constant-trip list loops of as_array / normalize_axis / argsort / `in` / insert unwound) and index::count is closed by a loop contract and every '
+                'under loop contracts, the constant-trip list loops of as_array / normalize_axis / has_repeated / argsort / `in` / insert unwound) and index::count is closed by a loop contract and every '
                 'NumPy postcondition (iff-validity + resulting shape / source index at every position via a ghost index) is '
                 'discharged by CBMC --dfcc for all inputs; permutation laws (gather o scatter = id, transpose by p then p^-1 restores '
                 'index and shape, reverse twice = id) are discharged on the compositions of the real functions. Products / quotients '
@@ -14,8 +14,8 @@ META = dict(
                 'checks of shape_reshape are also discharged bit-precisely with product/count_negative_reshape replaced by their '
                 '(separately discharged) contracts. flip_slices is proved for a compile-time rank 3 (loop over the axes unwound: '
                 'constant trip count). moveaxis with lists given as utl::static_vector<int,8> is examined by a BOUNDED unit (list length <= 3, every rank 0..8, '
-                'all loops unwound; not counted as proved). One genuine defect (moveaxis_to_transpose accepts repeated axes, NumPy raises) is recorded '
-                'as a region finding on the two list entries and excluded (known_findings.json; repair proposed).'),
+                'all loops unwound; not counted as proved). The defect found here (moveaxis_to_transpose accepted repeated axes where NumPy raises) is '
+                'repaired in /repo (b20b6ba); no input region is excluded any more.'),
     level_note=('Trusted: clang AST, cxx2c rendering, CBMC/dfcc; UF axioms for * / % plus three listed theorem instances; the glue '
                 'between the index functions and the views (view::reshape/transpose/... call exactly these functions; '
                 'reshape_t::indices = compute_indices(compute_offset(.)) is under contract in C01). Signed->unsigned conversions '
@@ -37,12 +37,11 @@ META = dict(
         'squeeze: extents >= 1 (property quantifier); for a zero extent shape_squeeze counts with `> 1` but copies with `!= 1` ((0,3) -> length 1): outside the quantifier, not claimed',
         'transpose family / laws: axes are a valid (possibly negative) permutation of the rank (validation of explicit axes is not done by shape_transpose / view::transpose: C15)',
         'configuration: -DNDEBUG, STL enabled, kind utl::static_vector<.,8> (rank 0..8 symbolic); normalize_axis: ndim <= INT_MAX',
-        'spec loops (spec/c03.h) are bounded by CAP=8 and unwound with unwinding assertions (unwind=10); constant-trip code loops of hybrid_ndarray<size_t,8,1> helpers, of the 1-element resp. 2-element axis arrays inside moveaxis_to_transpose (as_array, normalize_axis, argsort, `in`, the insert loop over the pairs) and of flip_slices(rank 3) are unwound before dfcc (unwind_loops)',
+        'spec loops (spec/c03.h) are bounded by CAP=8 and unwound with unwinding assertions (unwind=10); constant-trip code loops of hybrid_ndarray<size_t,8,1> helpers, of the 1-element resp. 2-element axis arrays inside moveaxis_to_transpose (as_array, normalize_axis, has_repeated, argsort, `in`, the insert loop over the pairs) and of flip_slices(rank 3) are unwound before dfcc (unwind_loops)',
         'moveaxis axis lists: the expected permutation is numpy\'s algorithm executed literally on plain arrays (spec/c03.h np_moveaxis_at: order = [n not in source]; for dest, src in sorted(zip(destination, source)): order.insert(dest, src)), cross-checked against a Python transcription on all 4.3 million inputs of rank <= 5, length <= 3',
     ],
     not_covered=[
         'moveaxis with axis lists longer than 3, or longer than 2 without a bound on the unwinding: lists of the fixed length 2 are proved for every rank 0..8 (loop contracts), utl::static_vector<int,8> lists only up to length 3 by the bounded unit moveaxis_list.bounded; index::argsort is covered only through this use (lists of length <= 3), not as a sorting routine with its own contract',
-        'moveaxis with repeated axes in source or destination (recorded finding: accepted instead of Nothing)',
         'flip: flip_slices only for compile-time rank 3 (run-time rank yields std::vector, a clipped rank does not compile: flip.hpp:74); the element map of the resulting (None,None,-1) slices is C05\'s compute_index contract; flip-twice law shown for index::reverse only',
         'shape_atleast_nd with run-time nd (std::vector result); numpy.atleast_3d (appends) differs from nmtools atleast_nd(3) (prepends): checked against the prepend rule',
         'remove_single_dims (not used by view::squeeze), swapaxes with a run-time (unbounded) rank',
@@ -81,14 +80,14 @@ UNITS = [
     Unit('shape_flatten.uf', 'c03', 'verif_shape_flatten', mode='uf', unwind=10, clause='flatten: single extent = element count'),
     Unit('swapaxes_to_transpose.bp', 'c03', 'verif_swapaxes_to_transpose', mode='bp', unwind=10, clause='swapaxes = transpose with the two axes exchanged'),
     Unit('moveaxis_to_transpose.bp', 'c03', 'verif_moveaxis_to_transpose', mode='bp', unwind=10,
-         unwind_loops={'moveaxis_to_transpose__rstatic_vector_ul_8_ri_ri': 2, r'argsort__rarr_\w+_1': 3, 'normalize_axis__rarr_i_1': 3, 'lambda_moveaxis_to_transpose_2': 3},
+         unwind_loops={'moveaxis_to_transpose__rstatic_vector_ul_8_ri_ri': 2, r'argsort__rarr_\w+_1': 3, 'normalize_axis__rarr_i_1': 3, 'lambda_moveaxis_to_transpose_2': 3, 'lambda_moveaxis_to_transpose_3': 3},
          clause='moveaxis (scalar axes) = transpose with numpy\'s moveaxis permutation'),
     Unit('moveaxis_l2.bp', 'c03', 'verif_moveaxis_to_transpose_l2', mode='bp', unwind=10,
          unwind_loops={'moveaxis_to_transpose__rstatic_vector_ul_8_rarr_i_2_rarr_i_2': 3, r'argsort__rarr_\w+_2': 3, 'normalize_axis__rarr_i_2': 3,
-                       'lambda_moveaxis_to_transpose_1': 3, 'lambda_moveaxis_to_transpose_2': 3},
+                       'lambda_moveaxis_to_transpose_1': 3, 'lambda_moveaxis_to_transpose_2': 3, 'lambda_moveaxis_to_transpose_3': 3},
          clause='moveaxis (axis lists of length 2, any rank 0..8) = transpose with numpy\'s moveaxis permutation; Nothing iff numpy raises'),
     Unit('moveaxis_list.bounded', 'c03', 'verif_moveaxis_to_transpose_list', mode='bp', plain=True, unwind=10, timeout=1500, object_bits=12,
-         unwind_loops={'.': 9, 'argsort': 4, 'normalize_axis': 4, 'lambda_moveaxis_to_transpose_1': 4, 'lambda_moveaxis_to_transpose_2': 4},
+         unwind_loops={'.': 9, 'argsort': 4, 'normalize_axis': 4, 'lambda_moveaxis_to_transpose_1': 4, 'lambda_moveaxis_to_transpose_2': 4, 'lambda_moveaxis_to_transpose_3': 4},
          bounded='axis lists (utl::static_vector<int,8>) of length <= 3 (source and destination independently, so length mismatches are included), every rank 0..8: all loops unwound (list loops 4x, rank loops 9x, unwinding assertions); lists of length 4..8 are not examined (length 8 exceeded 25 min)',
          clause='moveaxis (axis lists of length 0..3) = transpose with numpy\'s moveaxis permutation; Nothing iff numpy raises'),
     Unit('flip_slices3.bp', 'c03', 'verif_flip_slices3', mode='bp', unwind=10, unwind_loops=FLIP, clause='flip(axis): step -1 exactly on axis mod ndim (rank 3)'),
